@@ -63,7 +63,8 @@ def plan(tier, seed):
     rng = P.rng("misfit")
     nm = 200 if tier == "quick" else 3000
     for i in range(nm):
-        P.add("misfit", kind=pick(rng, ["Compose", "Add-i", "Add-o", "Hstack-o", "Hstack-off",
+        P.add("misfit", kind=pick(rng, ["Compose", "Compose-rank", "Add-rank", "Add-i", "Add-o",
+                                        "Hstack-o", "Hstack-off",
                                         "Hstack-rank", "Vstack-i", "Vstack-off",
                                         "Vstack-rank", "Diag-ioff", "Diag-ooff"]),
               mseed=int(rng.integers(1 << 30)))
@@ -151,6 +152,18 @@ def _misfit(kind, rng):
     if kind == "Compose":
         A, B = leaf(s), leaf(other(s))
         return (lambda: A * B), "Compose %s * %s" % (A, B)
+    if kind == "Compose-rank":
+        # shapes of different rank where one is a prefix of the other ([4] vs [4, 3])
+        t = list(s) + [int(rng.integers(1, 4))]
+        if rng.random() < 0.5:
+            A, B = leaf(s), leaf(t)
+        else:
+            A, B = leaf(t), leaf(s)
+        return (lambda: A * B), "Compose %s * %s" % (A, B)
+    if kind == "Add-rank":
+        t = list(s) + [1]
+        A, B = leaf(s), leaf(t)
+        return (lambda: A + B), "Add %s + %s" % (A, B)
     if kind in ("Add-i", "Add-o"):
         A = leaf(s)
         t = other(s)
